@@ -440,6 +440,89 @@ func c19Run(c *Ctx) {
 		}
 	}
 	_ = foundPhi
+	// the duplicate test may live in a helper: `if hc.isPortDefined(addr)` whose true-returns sit under
+	// compareAddr(range key of the ports table, <the address parameter>) and whose false-return follows the whole scan
+	if dupIf == nil {
+		for _, b := range run.Blocks {
+			if len(b.Instrs) == 0 || !tcall.Block().Dominates(b) {
+				continue
+			}
+			iff, ok := b.Instrs[len(b.Instrs)-1].(*ssa.If)
+			if !ok {
+				continue
+			}
+			atom, pol0 := condAtom(iff.Cond)
+			hc, ok := atom.(*ssa.Call)
+			if !ok {
+				continue
+			}
+			hf := hc.Call.StaticCallee()
+			if hf == nil || !InRepo(hf) || hf.Blocks == nil || !types.Identical(hf.Signature.Results().At(0).Type().Underlying(), types.Typ[types.Bool]) {
+				continue
+			}
+			var ap *ssa.Parameter
+			for i, a := range hc.Call.Args {
+				if Unwrap(a) == addrV && i < len(hf.Params) {
+					ap = hf.Params[i]
+				}
+			}
+			if ap == nil {
+				continue
+			}
+			good, nTrue := true, 0
+			for _, r := range Returns(hf) {
+				k, isK := RetVals(r)[0].(*ssa.Const)
+				if !isK {
+					good = false
+					continue
+				}
+				if k.Value.String() != "true" {
+					if InLoop(r.Block()) {
+						good = false // gives up before every existing key was compared
+					}
+					continue
+				}
+				nTrue++
+				under := false
+				for _, dc := range DomConds(r) {
+					call, pol := condCall(dc)
+					if call == nil || !pol || !FuncIs(call.Call.StaticCallee(), serverPath, "compareAddr") {
+						continue
+					}
+					isKey := func(v ssa.Value) bool {
+						ex, ok := v.(*ssa.Extract)
+						if !ok || ex.Index != 1 {
+							return false
+						}
+						nx, ok := ex.Tuple.(*ssa.Next)
+						if !ok {
+							return false
+						}
+						rg, ok := nx.Iter.(*ssa.Range)
+						if !ok {
+							return false
+						}
+						_, isPorts := isFieldLoadNamed(rg.X, "ports")
+						return isPorts
+					}
+					a0, a1 := call.Call.Args[0], call.Call.Args[1]
+					if (isKey(a0) && Unwrap(a1) == ssa.Value(ap)) || (isKey(a1) && Unwrap(a0) == ssa.Value(ap)) {
+						under = true
+					}
+				}
+				if !under {
+					good = false
+				}
+			}
+			if good && nTrue > 0 {
+				dupIf = iff
+				dupIdx = 1 // enabling edge: not a duplicate
+				if !pol0 {
+					dupIdx = 0
+				}
+			}
+		}
+	}
 	if dupIf == nil {
 		c.Violate("duplicate-detection", "duplicate flag", p.InstrPos(tcall), "no branch on a flag that is set exactly when compareAddr(existing key of hc.ports, addr) holds: first-wins for compatible duplicate entries is not enforced")
 	} else {
